@@ -20,7 +20,7 @@ def M(f, t, r=N, a=()):
 KEYS7 = ["A", "B", "C", "D", "LEFTSHIFT", "LEFTCTRL", "F"]   # F: foreign non-modifier
 FROMS = [["A"], ["B"], ["LEFTSHIFT"], ["C", "A"], ["LEFTSHIFT", "A"], ["LEFTSHIFT", "B"], ["C", "B"],
          ["LEFTCTRL", "LEFTSHIFT", "A"], ["C"], ["A", "B"]]
-TOS = [[], ["A"], ["B"], ["D"], ["LEFTSHIFT"], ["LEFTSHIFT", "A"], ["LEFTSHIFT", "D"], ["LEFTCTRL", "D"], ["LEFTCTRL"], ["C"]]
+TOS = [[], ["A"], ["B"], ["D"], ["LEFTSHIFT"], ["LEFTSHIFT", "A"], ["LEFTSHIFT", "D"], ["LEFTCTRL", "D"], ["LEFTCTRL"], ["C"], ["LEFTCTRL", "LEFTSHIFT"]]
 REPS = [N, D, S(["E"])]
 
 
@@ -32,6 +32,10 @@ def abs_variants(f):
     return [[], [f[0]], [f[1]], [f[0], f[1]]]
 
 
+# unusual Special repeats the loader accepts: an empty chord, zero delay and interval (only without absorbing, to keep the family small)
+ODD_REPS = [S([]), S(["E"], 0, 0)]
+
+
 def singles():
     out = []
     for f in FROMS:
@@ -39,6 +43,8 @@ def singles():
             for r in REPS:
                 for a in abs_variants(f):
                     out.append(M(f, t, r, a))
+            for r in ODD_REPS:
+                out.append(M(f, t, r, []))
     return out
 
 
@@ -145,6 +151,12 @@ def small_family(tag, pred, per_pair, n_triples, extra_seed=None, extra_pairs=0,
         for c, lay in enumerate(pick(rng, [SINGLES, SINGLES, SINGLES], pred, extra_triples)):
             jobs.append(job("%s-s3-%d-%d" % (tag, extra_seed, c), lay, rot=c))
     return jobs
+
+
+def small_n4(tag, pred, n):
+    """n three-mapping layouts of the small family explored with FOUR keys held (some defects need a fourth key)"""
+    base = small_family(tag, pred, 0, n, None, 0, 0, ones=False)
+    return [dict(j, id=j["id"] + "-n4", maxheld=4) for j in base]
 
 
 # ---- an absorbing mapping next to EVERY other mapping shape (trigger x output, normal repeat): what the flush of absorbed keys
@@ -265,7 +277,7 @@ def builtin_jobs(builtins, thorough):
             alphs = [first_keys(b["json"], 6) + ["F5"]]
         for i, a in enumerate(alphs if thorough else alphs[:2]):
             jobs.append({"id": "builtin-%s-%d" % (b["name"], i), "fancy": b["json"], "keys": a, "maxheld": 3})
-        if thorough and b["name"] in BUILTIN_ALPHABETS_N4:
+        if b["name"] in BUILTIN_ALPHABETS_N4:      # four keys held: cheap enough for the quick tier too (36 000 table states for the three)
             jobs.append({"id": "builtin-%s-n4" % b["name"], "fancy": b["json"], "keys": BUILTIN_ALPHABETS_N4[b["name"]], "maxheld": 4})
     return jobs
 
